@@ -96,7 +96,7 @@ func upgradeDumpBody(r *Run) {
 	twice := Chance(t, "twice?", 30)
 	claim := 0
 	if Chance(t, "claimVersion?", 50) {
-		claim = 1 + Pick(t, "claimVersion", 8)
+		claim = 1 + Pick(t, "claimVersion", 10)
 	}
 	d := LoadDump(filepath.Join(RepoDir(), ds.prefix))
 	mutate := func(name string, kvs []KV) []KV {
@@ -195,7 +195,8 @@ func upgradeDumpBody(r *Run) {
 	claimed := int64(0)
 	if target == "balance" && claim > 0 {
 		cur, prev := TreeVersions()
-		cands := []int64{prev, prev + 1, 16000, 17000, 18000, 19000, 19001, cur - 1}
+		// (also just below the oldest supported version: must be refused)
+		cands := []int64{prev, prev + 1, 16000, 17000, 18000, 19000, 19001, cur - 1, prev - 1, prev - 4}
 		claimed = cands[(claim-1)%len(cands)]
 		recorded := recordedVersion(ds.prefix, d, target)
 		if claimed == prev && recorded != prev {
